@@ -332,3 +332,78 @@ def gen_electric_inputs(rng, plant, n=None, mixed_modes=True):
             pin = [Fraction(rng.randint(-32, 32), 32) * rated if l == 1 else Fraction(0) for l in lsm]
             comps.append({"status": status, "lsm": lsm, "pin": pin})
     return {"n": n, "sts": sts, "comps": comps}
+
+
+# ---------------------------------------------------------------------------------------------
+# mechanical systems
+
+
+def build_mechanical_system(plant):
+    """plant = {"mech": [component dicts with "line"]} -> (system, objects)"""
+    from feems.system_model import MechanicalPropulsionSystem
+    objs = []
+    for d in plant["mech"]:
+        objs.append(build_electric_component(d) if d["cls"] == "ptipto" else build_mechanical_component(d))
+    return MechanicalPropulsionSystem("mech", objs), objs
+
+
+def gen_mechanical_plant(rng, max_lines=3, pti_prob=0.6):
+    nl = rng.randint(1, max_lines)
+    lines = sorted(rng.sample(range(1, 6), nl))
+    comps = []
+    k = 0
+    for ln in lines:
+        for _ in range(rng.randint(1, 3)):
+            k += 1
+            comps.append({"name": f"me{k}", "cls": rng.choice(["main_engine", "main_engine_gb"]), "line": ln,
+                          "rated": Fraction(rng.randint(4, 40) * 250), "gb_eff": [Fraction(rng.randint(60, 64), 64)]})
+        if rng.random() < pti_prob:
+            k += 1
+            comps.append({"name": f"pti{k}", "cls": "ptipto", "line": ln, "swb": 1, "rated": Fraction(rng.randint(2, 12) * 250),
+                          "eff": [Fraction(rng.randint(56, 64), 64)]})
+        for _ in range(rng.randint(1, 2)):
+            k += 1
+            comps.append({"name": f"ld{k}", "cls": rng.choice(["propeller", "mech_load"]), "line": ln,
+                          "rated": Fraction(rng.randint(8, 60) * 250), "eff": [Fraction(rng.randint(56, 64), 64)]})
+    rng.shuffle(comps)
+    return {"mech": comps, "lines": lines}
+
+
+def gen_mechanical_inputs(rng, plant, n=None):
+    n = n or rng.randint(1, 8)
+    out = []
+    for d in plant["mech"]:
+        rated = Fraction(d["rated"])
+        if d["cls"] in ("main_engine", "main_engine_gb"):
+            p_on = rng.choice([1.0, 0.8, 0.5])
+            out.append({"status": [rng.random() < p_on for _ in range(n)]})
+        elif d["cls"] == "ptipto":
+            full = [rng.random() < 0.25 for _ in range(n)] if rng.random() < 0.6 else [False] * n
+            out.append({"shaft": [Fraction(rng.randint(-32, 32), 32) * rated for _ in range(n)], "full": full,
+                        "set": rng.choice(["by_output", "by_output", "by_input"])})
+        else:
+            out.append({"out": [Fraction(rng.randint(0, 48), 64) * rated if rng.random() < 0.9 else Fraction(0) for _ in range(n)],
+                        "set": rng.choice(["by_output", "by_input"])})
+    return {"n": n, "comps": out}
+
+
+def apply_mechanical_inputs(sysm, objs, plant, inp):
+    from feems.types_for_feems import TypePower
+    n = inp["n"]
+    for d, o, ci in zip(plant["mech"], objs, inp["comps"]):
+        if d["cls"] in ("main_engine", "main_engine_gb"):
+            sysm.set_status_main_engine_for_name_shaft_line_id(d["name"], d["line"], np.array(ci["status"], dtype=bool))
+        elif d["cls"] == "ptipto":
+            arr = np.array([float(x) for x in ci["shaft"]], dtype=float)
+            o.status = np.ones(n, dtype=bool)
+            if ci["set"] == "by_output":
+                sysm.set_power_input_pti_pto_by_power_output_value_for_name_shaft_line_id(d["name"], d["line"], arr)
+            else:
+                sysm.set_power_input_pti_pto_by_value_for_name_shaft_line_id(d["name"], d["line"], arr)
+            sysm.set_full_pti_mode_for_name_shaft_line_id(d["name"], d["line"], np.array(ci["full"], dtype=bool))
+        else:
+            arr = np.array([float(x) for x in ci["out"]], dtype=float)
+            if ci["set"] == "by_output":
+                sysm.set_power_consumer_load_by_power_output_for_given_name_shaft_line_id(d["name"], d["line"], arr)
+            else:
+                sysm.set_power_consumer_load_by_value_for_given_name_shaft_line_id(d["name"], d["line"], arr)
